@@ -1293,7 +1293,11 @@ impl DbInner {
 				let max_logs = if self.options.sync_data { MAX_LOG_FILES } else { KEEP_LOGS };
 				let dirty_logs = self.log.num_dirty_logs();
 				if !validation_mode {
-					while self.log.num_dirty_logs() > max_logs {
+					// After shutdown the cleanup worker may already be gone (and kill_logs runs this
+					// on the dropping thread): waiting for it would never end.
+					while self.log.num_dirty_logs() > max_logs &&
+						!self.shutdown.load(Ordering::SeqCst)
+					{
 						log::debug!(target: "parity-db", "Waiting for log cleanup. Queued: {}", dirty_logs);
 						#[cfg(parity_db_verif)]
 						crate::verif::emit("EnactCleanupWait", &[dirty_logs as u64]);
@@ -1375,6 +1379,8 @@ impl DbInner {
 		self.log_worker_wait.signal();
 		self.commit_worker_wait.signal();
 		self.cleanup_worker_wait.signal();
+		// A commit worker waiting for a log cleanup must re-check the shutdown flag.
+		self.cleanup_queue_wait.signal();
 	}
 
 	fn kill_logs(&self, db: &Arc<DbInner>) -> Result<()> {
